@@ -81,8 +81,15 @@ func dumpTo(sb *strings.Builder, v reflect.Value) {
 	case reflect.Slice, reflect.Array:
 		if t.Elem().Kind() == reflect.Uint8 {
 			sb.WriteString("x")
+			if t.Kind() == reflect.Slice {
+				sb.WriteString(hex.EncodeToString(v.Bytes()))
+				return
+			}
+			const hexd = "0123456789abcdef"
 			for i := 0; i < v.Len(); i++ {
-				fmt.Fprintf(sb, "%02x", v.Index(i).Uint())
+				b := byte(v.Index(i).Uint())
+				sb.WriteByte(hexd[b>>4])
+				sb.WriteByte(hexd[b&15])
 			}
 			return
 		}
@@ -568,7 +575,7 @@ func (c *checker) rlpMutations(r *rlpRoot, g *gridValue, enc []byte, local map[s
 		try(enc[:k], fmt.Sprintf("truncate@%d", k))
 	}
 	buf := make([]byte, len(enc))
-	for pos := 0; pos < len(enc); pos++ {
+	for _, pos := range rlpStructuralPositions(enc) {
 		seen := map[byte]bool{enc[pos]: true}
 		for _, s := range []byte{0x00, 0x01, 0x7f, 0x80, 0xff, enc[pos] + 1, enc[pos] - 1} {
 			if seen[s] {
@@ -594,4 +601,44 @@ func (c *checker) rlpRealDecode(name string, in []byte, mut string) {
 			kase{Phase: "rlp", RLP: &rlpCase{Kind: "bytes", Target: name, Hex: hex.EncodeToString(in), Mut: mut}},
 			fmt.Sprintf("rlp.DecodeBytes(%x) into %T panicked: %v", clip(in), real, core.FirstLine(pv)))
 	}
+}
+
+// rlpStructuralPositions: the offsets of all header bytes (prefix and
+// length-of-length bytes) of all items of a well-formed encoding, plus the
+// first and last payload byte of every string.  Substitutions elsewhere only
+// change payload bytes, which both decoders copy verbatim.
+func rlpStructuralPositions(enc []byte) []int {
+	set := map[int]bool{}
+	var walk func(b []byte, off int)
+	walk = func(b []byte, off int) {
+		for len(b) > 0 {
+			k, content, rest, err := urlp.Split(b)
+			if err != nil {
+				return
+			}
+			hdr := len(b) - len(rest) - len(content)
+			for i := 0; i < hdr; i++ {
+				set[off+i] = true
+			}
+			if k == urlp.List {
+				walk(content, off+hdr)
+			} else if len(content) > 0 {
+				set[off+hdr] = true
+				set[off+hdr+len(content)-1] = true
+			}
+			off += len(b) - len(rest)
+			b = rest
+		}
+	}
+	walk(enc, 0)
+	for i := 0; i < len(enc) && i < 4; i++ {
+		set[i] = true
+	}
+	var out []int
+	for i := 0; i < len(enc); i++ {
+		if set[i] {
+			out = append(out, i)
+		}
+	}
+	return out
 }
